@@ -476,6 +476,66 @@ def extend_measure_cases(ctx, rng):
         c.op = f'C11 circ Q {n} {c.prog} {enc_q(psi)}'
         c.ntkey = ('placed-twice', n, it)
         cases.append(c)
+    # a block holding a MeasureGate extended ONCE into the main circuit, the main circuit shifted afterwards, then the MAIN circuit applied:
+    # the record of the (shared) gate object must refer to the state of the main circuit at that point, on the shifted qubits.
+    # (What the shift does to the *sub* circuit that shares the gate object is outside the statement: design_notes/C11.md, observation O1.)
+    for it in range(12 if ctx.quick() else 100):
+        n = int(rng.integers(1, 4))
+        d = int(rng.integers(1, 3))
+        def rand_gate_on(w):
+            k = int(rng.integers(1, min(w, 2) + 1))
+            return ('u', REF['H'] if (k == 1 and rng.integers(0, 2)) else rand_int_unitary(rng, 2 ** k), tuple(int(x) for x in rng.permutation(w)[:k]))
+        pre = [rand_gate_on(n) for _ in range(int(rng.integers(0, 3)))]
+        subset = tuple(sorted(int(x) for x in rng.permutation(n)[:int(rng.integers(1, n + 1))]))
+        sub = [rand_gate_on(n) for _ in range(int(rng.integers(0, 3)))] + [('m', subset, int(rng.integers(0, 2 ** 31)))] + [rand_gate_on(n) for _ in range(int(rng.integers(0, 2)))]
+        post = [rand_gate_on(n + d) for _ in range(int(rng.integers(0, 3)))]
+        if it % 3 == 0:
+            post.append(('m', tuple(sorted(int(x) for x in rng.permutation(n + d)[:int(rng.integers(1, n + d + 1))])), int(rng.integers(0, 2 ** 31))))
+        w = n + d
+        g = rand_gi(rng, 2 ** w, -2, 2)
+        if np.linalg.norm(g) == 0:
+            g[0] = 1
+        psi = g / np.linalg.norm(g)
+        c = CCase()
+        c.n, c.psi, c.key, c.err = w, psi, 'MeasureGate-extended-then-shifted', None
+        c.steps = pre + sub + [('s', d)] + post          # the intended flat circuit
+        c.tou, c.width, c.last = None, None, None
+        log = []
+        try:
+            def build(entries, circ):
+                for s_ in entries:
+                    if s_[0] == 'u':
+                        circ.append_gate(numqi.sim.Gate('unitary', s_[1]), s_[2])
+                    else:
+                        spy_measure(circ.measure(s_[1], seed=s_[2]), log)
+            circ = numqi.sim.Circuit(); build(pre, circ)
+            block = numqi.sim.Circuit(); build(sub, block)
+            circ.extend_circuit(block)
+            circ.shift_qubit_index_(d)
+            build(post, circ)
+            c.tou = guarded(lambda: 'returned-a-matrix' if isinstance(circ.to_unitary(), np.ndarray) else 'returned')
+            c.width = guarded(lambda: str(int(circ.num_qubit)))
+            c.final = circ.apply_state(psi)
+            c.records = [(r[0], r[1], r[2]) for r in log]
+        except Exception as e:
+            c.err = type(e).__name__
+            c.final, c.records = None, []
+        k = [0]
+        def text(entries):
+            out = []
+            for s_ in entries:
+                if s_[0] == 'u':
+                    out.append(f'u:{idx_str(s_[2])}:{enc_q(s_[1])}')
+                elif s_[0] == 's':
+                    out.append(f's:{s_[1]}')
+                else:
+                    bits = ''.join(str(int(b)) for b in c.records[k[0]][0]) if k[0] < len(c.records) else '0' * len(s_[1])
+                    out.append(f'm:{idx_str(s_[1])}:{bits}'); k[0] += 1
+            return out
+        c.prog = '|'.join(text(pre) + ['e:' + '!'.join(text(sub))] + [f's:{d}'] + text(post))
+        c.op = f'C11 circ Q {w} {c.prog} {enc_q(psi)}'
+        c.ntkey = ('extended-then-shifted', n, d, it)
+        cases.append(c)
     # index handling of MeasureGate.__init__ through Circuit.measure (circuit.py:30-32)
     psi3 = np.zeros(8, dtype=np.complex128); psi3[5] = 1
     for idx, form in [((1, 0), 'tuple'), ((2, 1), 'tuple'), ((1, 1), 'tuple'), ((0, 0, 2), 'tuple'), ((2,), 'int'), ((0,), 'int'), ((3,), 'tuple'), ((0, 2), 'list')]:
@@ -685,6 +745,20 @@ def probe(ctx):
         if final is None or not close(c.final, final, 1e-10):
             ctx.fail('MeasureGate:state', 'state after the circuit is not the projected state propagated through the remaining gates', rp); continue
         ctx.probe_ok(('probe',) + c.ntkey)
+        # model-independent oracles of the two circuit-level queries: a circuit holding a MeasureGate has no unitary (circuit.py:445),
+        # and num_qubit is 1 + the largest index over all entries, the measured qubits included (circuit.py:454-466)
+        if c.tou is not None:
+            if not c.tou.startswith('error'):
+                ctx.fail('MeasureGate:to_unitary-returns', 'Circuit.to_unitary returned a value for a circuit holding a MeasureGate (it must raise)', dict(rp, query='to_unitary'))
+            else:
+                ctx.probe_ok(('probe-unitary',) + c.ntkey)
+        if c.width is not None:
+            want = str(max([q for e in _resolved_indices(c.steps) for q in e] + [0]) + 1)
+            if c.width != want:
+                ctx.fail('MeasureGate:num_qubit', f'Circuit.num_qubit is {c.width}, the entries (measured qubits included) reach {want} qubits',
+                         dict(rp, query='num_qubit', observed=c.width, expected=want))
+            else:
+                ctx.probe_ok(('probe-width',) + c.ntkey)
     probe_choice_contract(ctx)
 
 
